@@ -671,12 +671,21 @@ int main (void)
          and report whether it touched the socket, the application or the event-loop info */
       struct MHD_Connection *mc = conns[a].mc;
       int io0 = io_calls[a], cb0 = cb_calls[a], eli0 = (int) mc->event_loop_info, st0 = (int) mc->state;
+      int eli_saved = eli0;
       if (!strcmp (l.w[1], "read")) MHD_connection_handle_read (mc, false);
       else if (!strcmp (l.w[1], "write")) MHD_connection_handle_write (mc);
-      else if (!strcmp (l.w[1], "idle")) (void) MHD_connection_handle_idle (mc);
+      else if (!strcmp (l.w[1], "idle"))
+      { /* a sentinel shows whether update_event_loop_info wrote the field at all */
+        mc->event_loop_info = MHD_EVENT_LOOP_INFO_CLEANUP; eli0 = (int) MHD_EVENT_LOOP_INFO_CLEANUP;
+        (void) MHD_connection_handle_idle (mc);
+        if (MHD_EVENT_LOOP_INFO_CLEANUP == mc->event_loop_info)
+        { int e = eli0; (void) e; }
+      }
       else { out ("bad-op"); continue; }
       out ("probe c=%d fn=%s suspended=%d io=%d cb=%d eli=%d->%d state=%d->%d", (int) a, l.w[1], (int) mc->suspended,
            io_calls[a] - io0, cb_calls[a] - cb0, eli0, (int) mc->event_loop_info, st0, (int) mc->state);
+      if (!strcmp (l.w[1], "idle") && MHD_EVENT_LOOP_INFO_CLEANUP == mc->event_loop_info)
+        mc->event_loop_info = (enum MHD_ConnectionEventLoopInfo) eli_saved;
       continue; }
     if (!strcmp (op, "stop")) { stop_daemon (); out ("stopped"); continue; }
     out ("bad-op");
